@@ -96,6 +96,8 @@ template<typename T> struct KllFam {
       }
     }
     for (uint64_t i = 0; i < n; ++i) s.update(GenItem<T>::make(r, dom));
+    // a query sorts level zero as a side effect: the image then carries the level-zero-sorted flag
+    if (!s.is_empty() && r.coin()) (void)s.get_rank(s.get_min_item());
     return s;
   }
   static std::string write(const SK& s, bool stream) { if (stream) { std::ostringstream os; s.serialize(os); return os.str(); } return to_str(s.serialize()); }
@@ -116,6 +118,13 @@ template<typename T> struct KllFam {
     const T mn = d.single ? d.items[0] : d.min_item, mx = d.single ? d.items[0] : d.max_item;
     VF_CHECK(mn == s.get_min_item() && mx == s.get_max_item(), "kll|image-vs-api|min-max", ctx);
     VF_CHECK(d.min_k <= d.k, "kll|image|min-k-above-k", ctx);
+    // (flag compared with the state before any query below sorts level zero as a side effect)
+    if (!d.single) {
+      const size_t l0 = (d.num_levels > 1 ? d.levels[1] : d.levels[0] + uint32_t(d.items.size())) - d.levels[0];
+      if (d.l0_sorted) { VF_CHECK(std::is_sorted(d.items.begin(), d.items.begin() + l0), "kll|image|level-zero-sorted-flag-but-level-zero-unsorted", ctx); count("kll_level_zero_sorted_flag"); }
+      else count("kll_level_zero_unsorted_flag");
+      VF_CHECK(d.l0_sorted == s.is_level_zero_sorted_, "kll|image-vs-state|level-zero-sorted-flag-bit1", ctx);
+    }
     quantile_decode_vs_api<T>("kll", d, view_pairs<T>(s), ctx);
     count(d.single ? "kll_single" : d.num_levels > 1 ? "kll_multi_level" : "kll_one_level");
     sig(mix64(mix64(d.n, d.k), mix64(d.num_levels, d.items.size())));
@@ -148,6 +157,7 @@ template<typename T> struct ReqFam {
       }
     }
     for (uint64_t i = 0; i < n; ++i) s.update(GenItem<T>::make(r, dom));
+    if (!s.is_empty() && r.coin()) (void)s.get_rank(s.get_min_item());   // sorts level zero: level-zero-sorted flag in the image
     return s;
   }
   static std::string write(const SK& s, bool stream) { if (stream) { std::ostringstream os; s.serialize(os); return os.str(); } return to_str(s.serialize()); }
@@ -171,6 +181,12 @@ template<typename T> struct ReqFam {
     if (d.has_minmax) VF_CHECK(d.min_item == s.get_min_item() && d.max_item == s.get_max_item(), "req|image-vs-api|min-max", ctx);
     else { T mn = d.items[0], mx = d.items[0]; for (const T& x : d.items) { if (x < mn) mn = x; if (mx < x) mx = x; }
       VF_CHECK(mn == s.get_min_item() && mx == s.get_max_item(), "req|image-vs-api|min-max-from-items", ctx); }
+    {
+      const size_t l0 = d.raw ? d.items.size() : d.lv[0].num_items;
+      if (d.l0_sorted) { VF_CHECK(std::is_sorted(d.items.begin(), d.items.begin() + l0), "req|image|level-zero-sorted-flag-but-level-zero-unsorted", ctx); count("req_level_zero_sorted_flag"); }
+      else count("req_level_zero_unsorted_flag");
+      VF_CHECK(d.l0_sorted == s.compactors_[0].is_sorted(), "req|image-vs-state|level-zero-sorted-flag-bit5", ctx);
+    }
     quantile_decode_vs_api<T>("req", d, view_pairs<T>(s), ctx);
     count(d.raw ? "req_raw_items" : d.pre_ints == 4 ? "req_estimation" : "req_one_level");
     sig(mix64(mix64(d.n, d.k), mix64(d.num_levels, d.flags)));
